@@ -82,9 +82,45 @@ def samples(sub, k=2):
     return list(dict.fromkeys(outs))
 
 
-def repeat_sites(sub, prefix_samples=("",)):
+def alphabet(sub, out=None):
+    """every character the pattern names literally (in a literal, a class or a look-around): the characters on which some item of
+    the pattern behaves differently from its neighbours"""
+    out = [] if out is None else out
+    for op, av in sub:
+        if op in (C.LITERAL, C.NOT_LITERAL):
+            out.append(chr(av))
+        elif op is C.IN:
+            for o, a in av:
+                if o is C.LITERAL:
+                    out.append(chr(a))
+                elif o is C.RANGE:
+                    out.append(chr(a[0]))
+        elif op in (C.MAX_REPEAT, C.MIN_REPEAT):
+            alphabet(av[2], out)
+        elif op is C.SUBPATTERN:
+            alphabet(av[3], out)
+        elif op is C.BRANCH:
+            for b in av[1]:
+                alphabet(b, out)
+        elif op in (C.ASSERT, C.ASSERT_NOT):
+            alphabet(av[1], out)
+    return out
+
+
+def _accepts(body):
+    try:
+        import re._compiler as K
+        rx = K.compile(body)
+        return lambda u: rx.fullmatch(u) is not None
+    except Exception:  # noqa
+        return lambda u: False
+
+
+def repeat_sites(sub, prefix_samples=("",), alpha=None):
     """yield (prefixes, units) for every repeat node with hi > 1 reachable in the sequence structure"""
     pre = list(prefix_samples)
+    if alpha is None:
+        alpha = list(dict.fromkeys(alphabet(sub)))[:24]
     for op, av in sub:
         if op in (C.MAX_REPEAT, C.MIN_REPEAT):
             lo, hi, s = av
@@ -103,17 +139,21 @@ def repeat_sites(sub, prefix_samples=("",)):
                                     alts += samples(b, 1)
                 alts = [a for a in dict.fromkeys(alts) if a]
                 units += alts + [a + b for a in alts for b in alts if a != b][:12]
-                units = [u for u in dict.fromkeys(units) if u]
+                units = [u for u in dict.fromkeys(units) if u][:16]
+                # one iteration on each character the rest of the pattern treats specially (a look-around or a class after the
+                # repeat may reject exactly these)
+                acc = _accepts(s)
+                units += [c for c in alpha if c not in units and acc(c)][:10]
                 if units:
-                    yield pre[:4], units[:16]
-            yield from repeat_sites(s, pre[:3])
+                    yield pre[:4], units
+            yield from repeat_sites(s, pre[:3], alpha)
         elif op is C.SUBPATTERN:
-            yield from repeat_sites(av[3], pre[:3])
+            yield from repeat_sites(av[3], pre[:3], alpha)
         elif op is C.BRANCH:
             for b in av[1]:
-                yield from repeat_sites(b, pre[:3])
+                yield from repeat_sites(b, pre[:3], alpha)
         elif op in (C.ASSERT, C.ASSERT_NOT):
-            yield from repeat_sites(av[1], pre[:3])
+            yield from repeat_sites(av[1], pre[:3], alpha)
         # extend the prefixes by a sample of this node
         ext = samples([(op, av)], 2)
         pre = list(dict.fromkeys(p + e for p in pre for e in ext))[:6]
